@@ -211,6 +211,29 @@ where
 }
 
 /// Worker thread entry point for the parallel branch and bound solving
+/// Verification hook: note the shared state as it is when the lock is about to be released
+#[cfg(feature = "verif")]
+fn verif_note_state<SubProblem: Ord, Solution, Score: Ord + fmt::Display>(
+    s: &SharedState<SubProblem, Solution, Score>,
+) {
+    crate::verif::sched::note(format!(
+        "state {} {} {} {} {} {} {} {} {}",
+        s.pending_nodes.len(),
+        s.busy_threads,
+        if s.best_result.is_some() {
+            format!("{}", s.best_score)
+        } else {
+            "-".to_owned()
+        },
+        s.statistics.num_executed_subproblems,
+        s.statistics.num_bound_subproblems,
+        s.statistics.num_no_solution,
+        s.statistics.num_infeasible,
+        s.statistics.num_feasible,
+        s.statistics.num_new_best
+    ));
+}
+
 fn worker<SubProblem: Ord + Send + fmt::Debug, Solution: Send, Score: Ord + Copy + fmt::Display>(
     bab: Arc<BranchAndBound<SubProblem, Solution, Score>>,
     node_solver: Arc<dyn Fn(SubProblem) -> NodeResult<SubProblem, Solution, Score>>,
@@ -227,6 +250,8 @@ fn worker<SubProblem: Ord + Send + fmt::Debug, Solution: Send, Score: Ord + Copy
                 shared_state.busy_threads += 1;
 
                 // Unlock shared_state and solve subproblem
+                #[cfg(feature = "verif")]
+                verif_note_state(&shared_state);
                 std::mem::drop(shared_state);
                 let subproblem_formatted = format!("{:?}", subproblem);
                 debug!("Solving subproblem: {}", subproblem_formatted);
@@ -302,6 +327,8 @@ fn worker<SubProblem: Ord + Send + fmt::Debug, Solution: Send, Score: Ord + Copy
             // check if we are finished, awake other threads and exit
             if shared_state.pending_nodes.is_empty() && shared_state.busy_threads == 0 {
                 bab.condvar.notify_all();
+                #[cfg(feature = "verif")]
+                verif_note_state(&shared_state);
                 break;
             }
 
@@ -309,10 +336,14 @@ fn worker<SubProblem: Ord + Send + fmt::Debug, Solution: Send, Score: Ord + Copy
         } else if shared_state.busy_threads > 0 {
             // Wait for notification by other threads. CondVar.wait() automatically handels the mutex unlock and re-lock
             // for us.
+            #[cfg(feature = "verif")]
+            verif_note_state(&shared_state);
             shared_state = bab.condvar.wait(shared_state).unwrap();
 
         // If no work is left to do, exit
         } else {
+            #[cfg(feature = "verif")]
+            verif_note_state(&shared_state);
             break;
         }
     }
